@@ -671,4 +671,42 @@ func c16Engine(env *Env, rep *Report) {
 		rep.Nontrivial++
 		rep.Count("engine_results")
 	}
+	// isolation when one option value (one WithVariables) is applied to several instances
+	{
+		cs := "two instances created with the same WithVariables option value; the first one writes"
+		env.Current(cs)
+		p := &Prog{}
+		p.Node("start", "start")
+		t := p.Node("task", "T")
+		t.Results = []string{"foo"}
+		p.Node("end", "end")
+		p.Flow("start", "T", "")
+		p.Flow("T", "end", "")
+		shared := []bpmn.Option{bpmn.WithVariables(map[string]any{"x": "orig", "n": 1})}
+		defsA, _ := ParseDefs(p.XML(""))
+		defsB, _ := ParseDefs(p.XML(""))
+		inA, err := StartInst(defsA, InstOpt{Opts: shared})
+		must(err)
+		inB, err := StartInst(defsB, InstOpt{Opts: shared, NoStart: true})
+		must(err)
+		inA.P.Locator().SetVariable("x", "changed-in-a")
+		if tt := inA.WaitTask("T", tmoStep); tt != nil {
+			tt.Do(bpmn.DoWithResults(map[string]any{"foo": 7}))
+			inA.WaitCease(tmoStep)
+		}
+		if v, _ := inB.P.Locator().GetVariable("x"); fmt.Sprint(v) != "orig" {
+			rep.Violate("C16-isolation", cs, fmt.Sprintf("the second instance reads x = %v, expected \"orig\"", v))
+		}
+		if _, ok := inB.P.Locator().GetVariable("foo"); ok {
+			rep.Violate("C16-isolation", cs, "the first instance's task result foo is visible in the second instance")
+		}
+		if n := len(inB.P.Locator().CloneVariables()); n != 2 {
+			rep.Violate("C16-isolation", cs, fmt.Sprintf("the second instance has %d variables, expected 2", n))
+		}
+		inA.Close()
+		inB.Close()
+		rep.Evaluations++
+		rep.Nontrivial++
+		rep.Count("engine_isolation_shared_option")
+	}
 }
